@@ -1,7 +1,7 @@
 """C01 - query results equal exactly the stored points that satisfy the query (DESIGN 4, C01)."""
 
 from .. import ladder, observers, qast, refmodel, world as W
-from .base import E1Check, viol, closure_configs, wide_configs, CFG4
+from .base import E1Check, viol, closure_configs, wide_configs, option_configs, CFG4
 
 
 def std_ops(alpha, cfg, tier, with_reads=True):
@@ -76,7 +76,7 @@ class C01(E1Check):
         # scale ladder: depth-2 histories on generated databases of 40 / 300 (/ 1300) points
         lad = ladder.configs(self.ladder_sizes(), storages=("mem", "csv"), autos=(True,), D=2, big_depth=1 if self.tier == "quick" else None)
         lad += ladder.configs(self.ladder_sizes()[:1], storages=("csv",), autos=(False,), D=2)
-        return cfgs + wide + lad + extra
+        return cfgs + option_configs(self.tier) + wide + lad + extra
 
     def budget(self):
         return 600 if self.tier == "quick" else 1200
